@@ -97,7 +97,48 @@ def run_shard(desc):
     part = {"evaluations": 0, "classes": set(), "violations": [], "samples": [], "abstained": 0, "inconclusive": [], "counts": {"bases_" + kind: 0, "variants_" + kind: 0, "base_not_as_documented": 0}}
     tg = gen.TreeGen(rnd)
     groups = []  # (base_text, [(label, cls, text)])
-    if kind == "gen":
+    if kind == "juxta":
+        # statements that follow each other WITHOUT `;` (the documented lenient form). The relation is judged against the crate's own
+        # parse of the base; only statements that are complete subexpressions of that parse are wrapped: each statement ends in a token
+        # that is not a name (so a following parenthesis cannot read as a call) and starts with an operand token (not a sign).
+        ENDS = ["rate = 2", "x = 0.5", "f(1)", "[1, 2]", "{1: 2}", "'s'", "true", "(a + b)", "n ++", "y = 'q'", "z = [3]", "7", "g(a, 2)", "k = (1)", "w = false", "3.10"]
+        STARTS = ["rate * 3", "a = 1", "5", "f(2)", "[3]", "{4: 5}", "'t'", "b + 2", "q ? 1 : 2", "not c", "m = 2", "h()", "true", "x == 1", "u ++", "1.5"]
+        both = [x for x in ENDS if x in STARTS or x[0] not in "-+!"]
+        for _ in range(n):
+            k_ = rnd.randint(2, 5)
+            stm = [rnd.choice(ENDS)] + [rnd.choice([x for x in STARTS if x in ENDS or True]) for _ in range(k_ - 1)]
+            # every statement but the last must also END in a non-name token
+            stm = [x if (i_ == k_ - 1 or x in ENDS) else rnd.choice([y for y in ENDS if y[0] not in "("]) for i_, x in enumerate(stm)]
+            seps = [rnd.choice([" ", "\n", "\r\n", "\t", "  ", "\n\n"]) for _ in range(k_ - 1)]
+            join_ = lambda parts, sp: "".join(p_ + (sp[i_] if i_ < len(sp) else "") for i_, p_ in enumerate(parts))
+            base = join_(stm, seps)
+            vs = [("base", None, base)]
+            for j_ in range(k_):
+                for depth in (1, rnd.choice([2, 3, 17])):
+                    parts = list(stm)
+                    parts[j_] = "(" * depth + parts[j_] + ")" * depth
+                    vs.append(("paren", "paren:juxta:%d:%s" % (min(depth, 4), "first" if j_ == 0 else ("last" if j_ == k_ - 1 else "inner")), join_(parts, seps)))
+                if j_ < k_ - 1:
+                    sp2 = list(seps)
+                    sp2[j_] = rnd.choice(WSK)
+                    vs.append(("ws", "ws:juxta:%r" % sp2[j_][:3], join_(stm, sp2)))
+                    sp3 = list(seps)
+                    sp3[j_] = " ; "
+                    vs.append(("ws", "semi:juxta", join_(stm, sp3)))
+            groups.append((None, vs))
+        steps = [{"op": "parse", "text": text, "want": "a"} for _, vs in groups for _, _, text in vs]
+        recs, events, _ = common.run_batch(steps, wd, "juxta-%d" % si, profile)
+        k = 0
+        for _, vs in groups:
+            rs = recs[k:k + len(vs)]
+            k += len(vs)
+            b = rs[0]
+            if b is None or b.get("p") != "ok":
+                part["counts"]["base_not_as_documented"] += 1
+                continue
+            part["counts"]["bases_juxta"] += 1
+            judge(part, vs[0][2], b, vs[1:], rs[1:], profile)
+    elif kind == "gen":
         for _ in range(n):
             t = tg.program(d=rnd.randint(1, 4))
             if rnd.random() < 0.3:
@@ -263,6 +304,8 @@ def run(rep, tier):
         shards.append(("gen", i, per, "release" if i % 2 else "verifdbg"))
     for i in range(nh // (per * 2)):
         shards.append(("hook", i, per * 2, "release" if i % 2 else "verifdbg"))
+    for i in range(4 if tier == "quick" else 32):
+        shards.append(("juxta", i, 400 if tier == "quick" else 4000, "release" if i % 2 else "verifdbg"))
     for i in range(16 if tier == "quick" else 320):
         shards.append(("config", i, 1000, "release" if i % 2 else "verifdbg"))
     for part in common.pmap(run_shard, shards):
